@@ -124,7 +124,7 @@ PROPS["C06"] = dict(
 )
 
 PROPS["C01"] = dict(
-    level="exploration", engine="E2 pair + E3 session",
+    level="exploration", engine="E2 pair + E3 session", bins=True,
     technique="property-based testing (rapid): generated source trees x configurations x segmentations through the real sender and receiver; tree-equality, must-succeed and reported-names oracles",
     level_text="Random search over the product (tree shape and names, boundary-biased sizes, content kinds, direction, base64/binary, escape-all, compress, "
                "buffer size, overwrite, directory mode, negotiated protocol 1-4, Windows framing, tmux junk mode, segmentation per direction) with the "
@@ -136,6 +136,8 @@ PROPS["C01"] = dict(
     tests=[
         dict(name="TestVF_C01", env=dict(VERIF_CASE_LIMIT=300),
              quick=dict(checks=1600, shards=16, timeout=600), thorough=dict(checks=40000, shards=16, timeout=6000)),
+        dict(name="TestVF_C01Session", env=dict(VERIF_CASE_LIMIT=300),
+             quick=dict(checks=160, shards=32, timeout=600), thorough=dict(checks=4000, shards=32, timeout=6000)),
     ],
 )
 
